@@ -61,6 +61,18 @@ Theorem C04_unreadable_nonsync_size_closes : forall s r r',
 Proof. exact unreadable_nonsync_size_closes. Qed.
 Print Assumptions C04_unreadable_nonsync_size_closes.
 
+(* the rest of a failed command's line is discarded up to its first LF: a bare CR (or any byte
+   other than LF) does not end it, so nothing after it on that line is parsed as a command *)
+Theorem C04_discarded_line_ends_at_lf : forall text rest, forallb not_lf text = true ->
+  fst (discard_line false (text ++ LF_ :: rest)) = rest.
+Proof. exact discard_line_ends_at_lf. Qed.
+Print Assumptions C04_discarded_line_ends_at_lf.
+
+Theorem C04_discarded_line_without_lf_ends_input : forall s, forallb not_lf s = true ->
+  discard_line false s = ([], false).
+Proof. exact discard_line_no_lf_is_eof. Qed.
+Print Assumptions C04_discarded_line_without_lf_ends_input.
+
 (* non-vacuity: payloads full of command-like text, a refused synchronising literal, and a
    refused non-synchronising literal that ends the connection before A6 *)
 Definition ex_payload := s2b "X1 CREATE evil" ++ CRLF_ ++ s2b "X2 DELETE INBOX" ++ CRLF_.
